@@ -18,6 +18,7 @@ import traceback
 
 HERE = os.path.dirname(os.path.abspath(__file__))
 ROOT = os.path.dirname(HERE)
+OUT = os.environ.get("PYVC_OUT", ROOT)      # development aid (mutation campaigns on scratch copies); the registered commands never set it
 sys.path.insert(0, ROOT)
 
 from pyvc import sym, interp, models, contract, solve, loader, bounded  # noqa: E402
@@ -223,9 +224,14 @@ def run_bounded(P, R, tier, seed):
                     R.known.append(dict(finding=kf.get("id"), obligation=name, witness={k: bounded.show(v) for k, v in args.items()}, inherited=True))
                     continue
                 if not any_open:
-                    # every obligation is discharged, yet the real code violates one: the engine (or an axiom) is wrong
-                    R.errors.append("UNSOUND ENGINE: obligation %s was discharged but the real function violates it on %s (%s)"
-                                    % (name, {k: bounded.show(v) for k, v in args.items()}, observed))
+                    # every obligation is discharged, yet the real code violates this clause on a concrete input.  The failing
+                    # input is real: it is reported as a violation with its replay.  The disagreement means that an assumption
+                    # the proof used (a trusted model of a library / float / external function, listed in the evidence) does
+                    # not hold for the current code - or that the engine is wrong; it is recorded as such.
+                    R.disagreements = getattr(R, "disagreements", [])
+                    R.disagreements.append("obligation %s was discharged but the real function violates it on %s (%s); assumptions in force: %s"
+                                           % (name, {k: bounded.show(v) for k, v in args.items() if k != "__script__"}, observed, sorted(R.assumptions)[:6]))
+                    print("ENGINE-DISAGREEMENT: %s" % R.disagreements[-1][:600])
                 else:
                     # modular proof: this function was verified against its callees' contracts, and a callee's own
                     # obligation is open in this run - the run-time failure is the consequence, reported with it
@@ -287,7 +293,7 @@ def match_known(known, prop, name, args):
 
 
 def write_replay(prop, name, c, args, observed, solver_note, tier):
-    d = os.path.join(ROOT, "replays", prop)
+    d = os.path.join(OUT, "replays", prop)
     os.makedirs(d, exist_ok=True)
     fn = re.sub(r"[^A-Za-z0-9_.#()-]", "_", name) + ".json"
     path = os.path.join(d, fn)
@@ -446,6 +452,7 @@ def write_evidence(prop, P, R, tier, seed, t_start, sc, n_bounded, status):
     cov = dict(
         obligations=n_obl, discharged=n_ok, solver_queries=sum(x["n"] for x in R.obl.values()),
         checker_cmd="python3-vt pyvc/check.py %s --tier %s" % (prop, tier),
+        engine_disagreements=getattr(R, "disagreements", []),
         trusted_base=P.get("trusted_base", []) + ["pyvc engine itself (symbolic executor, models of builtins in pyvc/models.py, axioms in pyvc/sym.py and spec/)",
                                                  "z3 %s / cvc5 CLI" % __import__("z3").get_version_string()],
         functions_under_contract=R.functions,
@@ -467,8 +474,8 @@ def write_evidence(prop, P, R, tier, seed, t_start, sc, n_bounded, status):
     ev = dict(property_id=prop, tier=tier, seed=seed, level=level, coverage=cov,
               assumptions=sorted(R.assumptions) + P.get("assumptions", []), wall_s=round(time.time() - t_start, 2),
               violations=len(R.violations))
-    os.makedirs(os.path.join(ROOT, "evidence"), exist_ok=True)
-    json.dump(ev, open(os.path.join(ROOT, "evidence", prop + ".json"), "w"), indent=1, default=str)
+    os.makedirs(os.path.join(OUT, "evidence"), exist_ok=True)
+    json.dump(ev, open(os.path.join(OUT, "evidence", prop + ".json"), "w"), indent=1, default=str)
 
 
 if __name__ == "__main__":
